@@ -822,3 +822,13 @@ def stale_operands(ctx, w, S, R, rule, variants):
                                   "%s reads the cursor position, then changes the cursor (%s), then hands the OLD position to %s: the primitive acts at a stale column/row" %
                                   (h, w.stmt_loc(h, bad[0]) if bad else "", cs.callee), loc=w.site_loc(cs), sample={"function": v, "callee": cs.callee})
     return n
+
+
+def embed(ctx, w, fn, *args, **kw):
+    """Run another property's rule group inside this check (a shared necessary
+    condition) without letting it overwrite this check's own description."""
+    keep = (getattr(ctx, "explanation", None), getattr(ctx, "decided", None), getattr(ctx, "not_decided", None))
+    try:
+        return fn(ctx, w, *args, **kw)
+    finally:
+        ctx.explanation, ctx.decided, ctx.not_decided = keep
